@@ -30,6 +30,8 @@ _CLASSES = {
     "orca_f": ("orca", [(2, "p"), (3, "p")], _P5, "restricted"),
     "orca_g": ("orca", [(2, "p"), (3, "p"), (4, "p")], _P5, "restricted"),
     "orca_unrestricted": ("orca", [(1, "c"), (2, "p"), (3, "p")], _P5, "unrestricted"),
+    # pure h functions (ORCA writes them; of their rows only |m| = 3 and 4 change sign, not |m| = 5: orca_*_cc_pvqz_pure.molden)
+    "orca_h": ("orca", [(1, "c"), (5, "p")], _P5, "restricted"),
     "psi4old_sp": ("psi4_old", [(1, "c")], _P5, "restricted"),
     "psi4old_d": ("psi4_old", [(1, "c"), (2, "p")], _P5, "restricted"),
     "psi4old_f": ("psi4_old", [(2, "p"), (3, "p")], _P5, "restricted"),
